@@ -348,6 +348,69 @@ class Ctx:
         finally:
             self.layer = None
 
+    # ---- coverage-guided driver (atheris / libFuzzer) ---------------------------------
+    def run_fuzz(self, layer, runs, with_corpus=True, max_len=256):
+        """Coverage-guided campaign in a fresh interpreter (atheris never returns from Fuzz()).  The check module
+        provides FUZZ[layer] = (decode(bytes) -> case | None, oracle(case) -> Result, corpus() -> [bytes]); the oracle
+        runs INSIDE the fuzz target.  A reported failure is re-evaluated here with the ordinary oracle before it counts;
+        a libFuzzer timeout / crash that does not reproduce is a note, never a verdict.  If atheris cannot be imported
+        the layer records `atheris: unavailable` and returns."""
+        self.layer = layer
+        out = tempfile.mkdtemp(prefix="vpfz_%s_" % self.mod.ID, dir="/dev/shm" if os.path.isdir("/dev/shm") else None)
+        try:
+            seed = self.derived_seed(layer) % (2**31 - 1) or 1
+            p = _spawn(["--fuzz", self.mod.ID, layer, runs, seed, out, int(with_corpus), max_len, self.deadline], stderr=subprocess.DEVNULL, stdout=subprocess.DEVNULL)
+            try:
+                rc = p.wait(timeout=max(30, self.deadline + 120 - time.time()))
+            except subprocess.TimeoutExpired:
+                p.kill()
+                rc = -9
+            sp = os.path.join(out, "stats.json")
+            if os.path.exists(sp):
+                d = json.load(open(sp))
+                st = self.stats
+                st.evaluations += d["evaluations"]
+                lay = st.layers.setdefault(layer, {"evaluations": 0, "nontrivial": 0})
+                lay["evaluations"] += d["evaluations"]
+                lay["nontrivial"] += d["nontrivial"]
+                lay["engine"] = "atheris %s, corpus=%s, -runs=%s -seed=%s, coverage-guided (reproducible unit = saved input)" % (d.get("atheris"), "seeded" if with_corpus else "empty", runs, seed)
+                for h in d["hashes"]:
+                    if len(st.hashes) < MAX_HASHES:
+                        st.hashes.add(h)
+                st.labels.update(d["labels"])
+                st.known.update(d["known"])
+                st.exc.update(d["exc"])
+                for smp in d["samples"]:
+                    if len(st.samples) < MAX_SAMPLES:
+                        st.samples.append(smp)
+                if d.get("unavailable"):
+                    st.notes.append("atheris: unavailable (%s) - layer %s skipped" % (d["unavailable"], layer))
+            else:
+                self.stats.notes.append("fuzz layer %s produced no statistics (rc=%s)" % (layer, rc))
+            fp = os.path.join(out, "fail.json")
+            if os.path.exists(fp):
+                case = json.load(open(fp))["case"]
+                decode, oracle, _corpus = self.mod.FUZZ[layer]
+                fails = self.evaluate(oracle, case)
+                if fails:
+                    mini = getattr(self.mod, "minimise", None)
+                    if mini:
+                        try:
+                            case = mini(case)
+                            fails = self.evaluate(oracle, case, count=False) or fails
+                        except Exception:  # noqa: minimiser trouble must not lose the finding
+                            pass
+                    self.violation(case, fails)
+                else:
+                    self.stats.notes.append("fuzz layer %s: a failure inside the target did not reproduce outside it (not a verdict)" % layer)
+            elif rc not in (0,):
+                self.stats.notes.append("fuzz layer %s ended with rc=%s without an oracle failure (libFuzzer timeout/oom/crash: inconclusive)" % (layer, rc))
+        finally:
+            import shutil
+
+            shutil.rmtree(out, ignore_errors=True)
+            self.layer = None
+
     def mark_exhaustive(self, layer, what):
         self.stats.layers.setdefault(layer, {"evaluations": 0, "nontrivial": 0})["exhaustive"] = what
 
@@ -397,6 +460,84 @@ def worker_main(argv):
     return 0
 
 
+def fuzz_main(argv):
+    """Fresh-interpreter atheris campaign with the oracle inside the target (see Ctx.run_fuzz)."""
+    setup_paths()
+    pid, layer, runs, seed, out, with_corpus, max_len, deadline = argv[:8]
+    runs, seed, with_corpus, max_len, deadline = int(runs), int(seed), int(with_corpus), int(max_len), float(deadline)
+    st = {"evaluations": 0, "nontrivial": 0, "hashes": [], "labels": collections.Counter(), "known": collections.Counter(),
+          "exc": collections.Counter(), "samples": [], "atheris": None}
+    hashes = set()
+
+    def dump():
+        st["hashes"] = sorted(hashes)
+        tmp = os.path.join(out, "stats.json.tmp")
+        with open(tmp, "w") as f:
+            json.dump(st, f, default=repr)
+        os.replace(tmp, os.path.join(out, "stats.json"))
+
+    try:
+        import atheris
+    except Exception as e:  # noqa
+        st["unavailable"] = repr(e)[:200]
+        dump()
+        return 0
+    try:
+        from importlib.metadata import version as _v
+
+        st["atheris"] = _v("atheris")
+    except Exception:  # noqa
+        st["atheris"] = "?"
+    import warnings
+
+    warnings.filterwarnings("ignore")
+    with atheris.instrument_imports(include=["cdd"], enable_loader_override=False):
+        mod = importlib.import_module("checks." + pid)
+        if hasattr(mod, "init_worker"):
+            mod.init_worker(None)
+    decode, oracle, corpus = mod.FUZZ[layer]
+    cdir = os.path.join(out, "corpus")
+    os.makedirs(cdir)
+    if with_corpus:
+        for i, b in enumerate(corpus()):
+            with open(os.path.join(cdir, "seed%04d" % i), "wb") as f:
+                f.write(b[:max_len])
+
+    def one(data):
+        if time.time() > deadline:
+            dump()
+            os._exit(0)
+        case = decode(data)
+        if case is None:
+            return
+        res = oracle(case)
+        st["evaluations"] += 1
+        st["labels"].update(res.labels)
+        st["known"].update(res.known)
+        st["exc"].update(res.exc)
+        if res.nontrivial:
+            st["nontrivial"] += 1
+            if len(hashes) < 50000:
+                hashes.add(case_hash(case))
+            if len(st["samples"]) < 3 and st["evaluations"] % 97 == 1:
+                st["samples"].append({"layer": layer, "case": _shorten(case)})
+        if res.failures:
+            with open(os.path.join(out, "fail.json"), "w") as f:
+                json.dump({"case": case, "failures": res.failures}, f, default=repr)
+            dump()
+            os._exit(1)
+        if st["evaluations"] % 500 == 0:
+            dump()
+
+    dump()
+    atheris.Setup([sys.argv[0], cdir, "-runs=%d" % runs, "-seed=%d" % seed, "-max_len=%d" % max_len, "-timeout=120", "-rss_limit_mb=4096", "-print_final_stats=0", "-verbosity=0"], one)
+    try:
+        atheris.Fuzz()
+    finally:
+        dump()
+    return 0
+
+
 def witness_main(argv):
     """Replays witnesses in a fresh interpreter; prints one JSON line per witness."""
     setup_paths()
@@ -426,13 +567,13 @@ def witness_main(argv):
 # parent
 # ======================================================================================
 
-def _spawn(args, hashseed="0", extra_env=None):
+def _spawn(args, hashseed="0", extra_env=None, **popen_kw):
     env = dict(os.environ)
     env.update(PYTHONHASHSEED=str(hashseed), PYTHONDONTWRITEBYTECODE="1", VERIF_REPO=REPO)
     env.pop("PYTHONPATH", None)
     if extra_env:
         env.update(extra_env)
-    return subprocess.Popen([sys.executable, "-X", "faulthandler", os.path.join(ROOT, "check")] + [str(a) for a in args], env=env, cwd=ROOT)
+    return subprocess.Popen([sys.executable, "-X", "faulthandler", os.path.join(ROOT, "check")] + [str(a) for a in args], env=env, cwd=ROOT, **popen_kw)
 
 
 def write_replay(pid, v):
@@ -658,6 +799,8 @@ def main(a):
             return worker_main(a[1:])
         if a and a[0] == "--witness":
             return witness_main(a[1:])
+        if a and a[0] == "--fuzz":
+            return fuzz_main(a[1:])
         if a and a[0] == "--collect":
             return collect_main(a[1:])
         rp = None
